@@ -835,6 +835,7 @@ func Compare(refTree *Tree, compTrees <-chan Trees, tips, comparetreeidentical b
 		wg.Add(1)
 		go func(cpu int) {
 			for treeV := range compTrees {
+				VerifYield()
 				total2 := 0
 				common := 0
 				var inerr error
@@ -845,6 +846,7 @@ func Compare(refTree *Tree, compTrees <-chan Trees, tips, comparetreeidentical b
 				if inerr == nil {
 					if inerr = treeV.Tree.ReinitIndexes(); inerr == nil {
 						edges2 := treeV.Tree.Edges()
+						VerifYield()
 						if inerr = refTree.CompareTipIndexes(treeV.Tree); err == nil {
 							sametree = true
 							for _, e2 := range edges2 {
@@ -874,6 +876,7 @@ func Compare(refTree *Tree, compTrees <-chan Trees, tips, comparetreeidentical b
 						}
 					}
 				}
+				VerifYield()
 				stats <- BipartitionStats{
 					treeV.Id,
 					total - common,
@@ -941,6 +944,7 @@ func CompareWeighted(refTree *Tree, compTrees <-chan Trees, tips, comparetreeide
 		wg.Add(1)
 		go func(cpu int) {
 			for treeV := range compTrees {
+				VerifYield()
 				var inerr error
 				inerr = treeV.Err
 
@@ -961,6 +965,7 @@ func CompareWeighted(refTree *Tree, compTrees <-chan Trees, tips, comparetreeide
 							compIndex.PutEdgeValue(e, i, e.Length())
 						}
 
+						VerifYield()
 						// The trees have the same tips, we can compare them
 						if inerr = refTree.CompareTipIndexes(treeV.Tree); err == nil {
 							sametree = true
@@ -1009,6 +1014,7 @@ func CompareWeighted(refTree *Tree, compTrees <-chan Trees, tips, comparetreeide
 					}
 				}
 
+				VerifYield()
 				stats <- WeightedBipartitionStats{
 					treeV.Id,
 					Ref,
